@@ -32,7 +32,7 @@ ASSUMPTIONS = [
 ]
 COMPONENTS = {"real": ["Arbiter.handle_usr2/reexec/start (fd adoption)/maybe_promote_master/stop (unlink predicate)/reap_workers (reexec_pid reset)",
                        "sock.create_sockets(fds)/BaseSocket(fd=)/close_sockets/UnixSocket", "Pidfile.create/rename/unlink", "systemd.listen_fds"],
-              "stub": ["kernel (fork, execvpe, descriptors, file system)", "worker run loop", "clients"]}
+              "stub": ["kernel (fork, execvpe, descriptors, file system)", "worker run loop (4/7 of the cases; in 3/7 the real sync / gthread / gevent / eventlet worker serves the clients on both sides of the hand-over)", "clients"]}
 
 EVENTS = ["usr2", "usr2", "term_old", "quit_old", "term_new", "quit_new", "usr2_again", "kill_new", "winch_old", "hup_old", "usr2_new"]
 
@@ -48,7 +48,8 @@ def make_case(index, rng, tier):
     while tc < t + 4.0 and len(clients) < 16:
         clients.append({"t": round(tc, 2), "dur": rng.choice([0, 0, 0.3, 1.0])})
         tc += rng.uniform(0.2, 0.9)
-    return {"events": evs, "clients": clients, "unix": rng.randrange(2) == 0, "workers": rng.randrange(1, 3),
+    real = rng.choice([None, None, None, "sync", "gthread", "gevent", "eventlet"])
+    return {"events": evs, "clients": clients, "unix": rng.randrange(2) == 0, "workers": rng.randrange(1, 3), "real": real,
             "graceful_timeout": rng.choice([1, 2]), "daemon": rng.randrange(3) == 0, "pidfile": rng.randrange(4) != 0,
             "buggify": {"pyticks": rng.randrange(3) == 0, "fork_child_first": rng.randrange(2) == 0, "spurious_select": rng.randrange(3) == 0,
                         "random_spawn_delay": rng.randrange(2) == 0}}
@@ -70,6 +71,12 @@ def run(case, choices):
     w = master.World(sim, cfg)
     if case["unix"]:
         w.addr = "/run/g.sock"
+    real = case.get("real")
+    if real:
+        # the real worker class serves the clients on both sides of the hand-over (the exec'd master builds its workers from the same code)
+        w.cfgsrc.update({"threads": 2, "keepalive": 0, "worker_connections": 10})
+        w.use_real_workers(real)
+        sim.probe("real_worker_class:" + real)
     m0 = w.start_master()
     masters = [m0]               # process objects of every master generation, in creation order
     state = {"stopping": {}, "exits": {}, "reexec_forks": [], "refused": [], "node_missing": [], "new_booted": {}}
@@ -174,6 +181,7 @@ def run(case, choices):
             return
         if sig != signal.SIGKILL and int(sig) not in tgt.handlers:
             return          # not booted far enough to have handlers: outside the histories
+        state.setdefault("sent", {}).setdefault(tgt.pid, []).append((sim.now, kind))
         sim.fault("signal:%s" % kind)
         sim.kill(tgt.pid, int(sig))
     for ev in case["events"]:
@@ -181,6 +189,9 @@ def run(case, choices):
     cl = []
     for i, c in enumerate(case["clients"]):
         reqs = "GET /r%d HTTP/1.1\r\nHost: h\r\nX-Dur: %s\r\n\r\n" % (i, c["dur"])
+        if real:
+            dur = min(c["dur"], 0.3) if gt == 1 else c["dur"]
+            reqs = "GET %s HTTP/1.1\r\nHost: h\r\nConnection: close\r\n\r\n" % ("/sleep/%s" % dur if dur else "/a")
         cl.append(w.add_client("c%d" % i, [["wait", c["t"]], ["connect"], ["send", reqs], ["recv", 30.0]]))
     t_end = max(e["t"] for e in case["events"]) + gt + 6.0
     ctx = lambda: "unix=%s workers=%d graceful=%s daemon=%s events=%r buggify=%r masters=%r t=%.2f" % (
@@ -277,6 +288,33 @@ def run(case, choices):
                 for pth in ("/run/g.pid", "/run/g.pid.2"):
                     if pth in sim.fs:
                         res.violate("C14:pidfile-left:%s" % pth[-5:], "every master has exited but %s remains with %r; %s" % (pth, bytes(sim.fs[pth].data), ctx()))
+        if real:
+            # "the old one keeps serving": a request a worker started reading is answered in full unless the master that owns that
+            # worker was told to shut down quickly (QUIT), killed, or stopped gracefully with less time left than the request needs
+            for c, spec in zip(cl, case["clients"]):
+                st = c.stream
+                if st is None:
+                    continue
+                srv = st.peer
+                fr = getattr(srv, "first_read", None)
+                acc = getattr(srv, "accepted_by", None)
+                ok = c.responses and c.responses[0]["status"] == 200 and c.responses[0]["complete"]
+                if ok or fr is None or acc is None:
+                    continue
+                wp = sim.procs.get(acc)
+                owner = wp.ppid if wp is not None else None
+                hist = [k for mp_ in masters for (t_, k) in state.get("sent", {}).get(mp_.pid, []) if mp_.pid == owner or owner == 1]
+                harsh = [k for k in hist if k.startswith("quit") or k.startswith("kill")]
+                # a worker whose master vanished (ppid 1) or was told to stop is outside this clause; C04 owns graceful stops
+                if owner in (None, 1) or harsh or any(k.startswith("term") for k in hist) or getattr(w.masters.get(owner), "_world_stopping", False):
+                    sim.probe("request_cut_by_requested_shutdown")
+                    continue
+                if wp is not None and wp.status is not None and (wp.status & 0x7F):
+                    continue      # the worker itself was killed by a signal of the history
+                res.violate("C14:full:%s:request-cut-during-handover" % real,
+                            "client %s: worker pid %r (master %r, never told to stop) had started reading its request at t=%.2f but the response is %r; "
+                            "log=%r; %s" % (c.name, acc, owner, fr, [(r["status"], r["complete"]) for r in c.responses], c.log[-5:], ctx()))
+                break
         for c in cl:
             if c.stream is not None and c.responses and not c.responses[0]["complete"]:
                 srv = c.stream.peer
